@@ -123,9 +123,8 @@ func (m *Memberlist) schedule() {
 	m.tickerLock.Lock()
 	defer m.tickerLock.Unlock()
 
-	// If we already have tickers, then don't do anything, since we're
-	// scheduled
-	if len(m.tickers) > 0 {
+	// If we are already scheduled, then don't do anything
+	if m.stopTick != nil {
 		return
 	}
 
@@ -152,9 +151,10 @@ func (m *Memberlist) schedule() {
 		m.tickers = append(m.tickers, t)
 	}
 
-	// If we made any tickers, then record the stopTick channel for
-	// later.
-	if len(m.tickers) > 0 {
+	// If we started anything, then record the stopTick channel for
+	// later. The push/pull loop has no ticker of its own but listens on
+	// the same channel.
+	if len(m.tickers) > 0 || m.config.PushPullInterval > 0 {
 		m.stopTick = stopCh
 	}
 }
@@ -212,13 +212,14 @@ func (m *Memberlist) deschedule() {
 	m.tickerLock.Lock()
 	defer m.tickerLock.Unlock()
 
-	// If we have no tickers, then we aren't scheduled.
-	if len(m.tickers) == 0 {
+	// If we have no stop channel, then we aren't scheduled.
+	if m.stopTick == nil {
 		return
 	}
 
 	// Close the stop channel so all the ticker listeners stop.
 	close(m.stopTick)
+	m.stopTick = nil
 
 	// Explicitly stop all the tickers themselves so they don't take
 	// up any more resources, and get rid of the list.
